@@ -219,7 +219,12 @@ class BlockDiagTreeFlatten(ssm_impl_api.AbstractTreeFlatten):
     @classmethod
     def from_example(cls, x):
         leaves, treedef = tree.tree_flatten_depth_one(x)
-        _, unravel_leaf = tree.ravel_pytree(leaves[0])
+
+        # Promote all leaves to their common dtype first (see the dense model):
+        # unravel_leaf() otherwise casts every leaf back to its own dtype.
+        flat, _ = tree.ravel_pytree(x)
+        leaf = tree.tree_map(lambda s: np.asarray(s, dtype=flat.dtype), leaves[0])
+        _, unravel_leaf = tree.ravel_pytree(leaf)
         return cls(treedef, unravel_leaf)
 
 
